@@ -34,4 +34,9 @@ Proof. intros Q L. unfold ref_drop. cbn [o_last_skipped upd_skipq]. rewrite L. d
 (* signals queued for physical batches that never reached step() are irrelevant to everything that follows *)
 Theorem stale_signals_irrelevant (s : ost T) (q q' : list bool) : ref_drop (upd_skipq s q) = ref_drop (upd_skipq s q').
 Proof. unfold ref_drop. cbn. reflexivity. Qed.
+(* whatever program of forward/backward passes, steps, clears and signals follows the clean-up, it runs exactly as after an iteration
+   that left nothing behind *)
+Corollary after_cleanup_as_from_clean_queue (s : ost T) (q : list bool) (ops : list (@op T)) :
+  run ops (ref_drop (upd_skipq s q)) = run ops (ref_drop (upd_skipq s [])).
+Proof. now rewrite (stale_signals_irrelevant s q []). Qed.
 End R.
